@@ -99,6 +99,10 @@ of_status_t	of_rs_2_m_set_fec_parameters   (of_rs_2_m_cb_t*		ofcb,
 				ofcb->nb_source_symbols, ofcb->max_nb_source_symbols))
 		goto error;
 	}
+	if (params->nb_source_symbols < 1 || params->nb_repair_symbols < 1 || params->encoding_symbol_length < 1) {
+		OF_PRINT_ERROR(("ERROR: nb_source_symbols, nb_repair_symbols and encoding_symbol_length must be at least 1"))
+		goto error;
+	}
 	ofcb->nb_source_symbols		= params->nb_source_symbols;
 	ofcb->nb_repair_symbols		= params->nb_repair_symbols;
 	ofcb->encoding_symbol_length	= params->encoding_symbol_length;
